@@ -229,6 +229,9 @@ fn vstream(profile: &str, seed: u64, start: u64, count: u64, verbose: bool, tall
                             synth::repeat_step_texts(feats, r);
                         }
                         synth::decorate(feats, r, cdata);
+                        if idx % 5 == 2 {
+                            synth::same_scenario_names(feats, r);
+                        }
                         for (i, f) in feats.iter_mut().enumerate() {
                             if pathless && i % 2 == 0 {
                                 f.path = None;
